@@ -39,7 +39,35 @@ value as known at the first mutation, current value):
 Engine H: BFS over histories by replay on fresh objects, dedupe on a canonical
 state (values, loadedness, committed_state, pending mutations, rows).
 
-Mutations caught: see end of module docstring (filled when run).
+Genuine defect found on the unchanged tree (kept as a violation with a stable
+signature, see the builder report): ``del obj.column_attr`` on a persistent
+object followed by ``flush()`` raises KeyError in
+persistence._collect_update_commands (history says deleted=[old], the flush
+must write NULL); proposed fix proposed_fixes/c36_del_column_attr_flush_keyerror.diff,
+with which this check is silent.
+
+Scope notes: ``expire`` in the bidirectional ``coll`` world is only applied
+while nothing is pending (expiring one side while the other side still carries
+the change is outside the property); the ``ref`` world is a unidirectional
+many-to-one for the same reason.  A collection call that fails on the plain
+type is not a mutation (nothing claimed below it).  A child row whose foreign
+key column is unloaded may be UPDATEd with an unchanged value (committed value
+unknown).
+
+Mutations caught (private copy, VF_REPO=/tmp/wt-orm3):
+ M1 state.py _modified_event: committed_state overwritten on every set ->
+    "set back to the committed value 1001 but history is ((1001,), (), (None,))"
+ M2 state.py _modified_event: collection copy not taken before first mutation
+    -> "cs.remove(c1) -> unchanged+deleted = ['c2'], committed ['c1','c2']"
+ M3 attributes.py History.from_scalar_attribute: identity instead of is_equal
+    -> "set back to the committed value 1001 but history is ((1001,),(),(1001,))"
+ M4 attributes.py History.from_collection: deleted computed against the wrong set
+ M5 persistence.py _collect_update_commands: is_equal test disabled -> "UPDATE
+    sets ('x',), attributes with a net change ()"
+ M6 attributes.py _ScalarAttributeImpl.set: active_history branch never loads
+    -> col/expired "y = None -> deleted=(), committed value was 1001"
+ M7 attributes.py History.from_object_attribute: None kept in deleted ->
+    ref "p = p1 -> deleted=(None,), committed value was None"
 """
 import gc
 import itertools
